@@ -118,6 +118,9 @@ def run(case):
             for k, s in enumerate(own_shape[::-1]):
                 hdr[f"NAXIS{k + 1}"] = s
             hdr["NAXIS"] = nd
+        if case["crpix_seed"] % 2:
+            from astropy.io import fits
+            hdr = fits.Header(hdr)                 # an astropy Header rather than a plain dict
         target = hdr
     else:
         target = t
